@@ -37,13 +37,15 @@ def gen_cases(ctx):
         base["N"] = int(rng.choice([1, 4, 10, 40], p=[0.3, 0.4, 0.25, 0.05]))
         base["F0"] = str(rng.choice(["I", "random"]))
         base["t0"] = float(rng.choice([0.0, 0.5, 1e4]))
+        if rng.random() < 0.3 and base["N"] >= 2:
+            base["refine"] = float(rng.choice([1e-6, 1e-8, 1e-10]))   # a very short interval: short in *time* at fast rates
         if rng.random() < 0.3:
             # strain paths with a large dynamic range of rates, run at geological speed, reach absolute
             # strain rates far below 1e-15 1/s -- exactly where an absolute constant in the scaling would bite
             base["L"]["mode"] = "multirate"
             base["L"]["rho"] = float(rng.choice([1e-2, 1e-3, 1e-4], p=[0.2, 0.4, 0.4]))
         ks = ([float(rng.choice([1e-16, 1e-15]))] + list(rng.choice(KS[2:], size=ctx.scale(2, 4), replace=False))
-              + [float(10.0 ** rng.uniform(-16, 3))])
+              + [float(10.0 ** rng.uniform(-16, 3))] + ([float(rng.choice([1e2, 1e3]))] if base.get("refine") else []))
         for k in ks:
             c = copy.deepcopy(base)
             c["kind"] = "rescale"
